@@ -187,7 +187,9 @@ def s_cop(c):
 def s_op(o, order=None):
     k = o["op"]
     if k == "sch":
-        return f"{'job' if o.get('ctor') else 'sch'} {s_spec(o)} {o['clock']}"
+        if o.get("ctor"):
+            return f"job {s_spec(o)} {o['clock']} {s_opt_int(o['_jobtz'] if '_jobtz' in o else o.get('_schedtz'))}"
+        return f"sch {s_spec(o)} {o['clock']}"
     if k == "exec":
         scripts = o.get("scripts") or {}
         parts = [str(len(scripts))]
